@@ -100,7 +100,10 @@ SEED = 0
 #: leading blanks, mixed leading blanks, signed range bounds followed by blanks, words that look like operators)
 CURATED = ["title:(foo bar)^", "title:foo^ bar", "title:(foo bar)^^2", "t:(a b)~", "f:\"p q\"~ x", "(a b)^ c~", " <5", "\t>10 AND foo", "  <5^2 OR bar", " <= \"a b\" c",
            "\n a", " \n a", "\t\n+ a", "\r\n\r\nf:[1 TO 2]", "[-1 TO 5]", "[ 1 TO -2 ]", "[ -1  TO  -2 ] x", "f:[-\"a b\" TO *] ", "a && b", "a || b", "f:(a && b)^2",
-           "a &&\tb\n||  c^2 ", "x:(y:(z:(w OR v) AND u)^2 AND t)~ ", "NOT  -  + a ", " ( ( a ) ) ", "a^ ^2", "TO TO TO", "[TO TO TO]", "a:TO"]
+           "a &&\tb\n||  c^2 ", "x:(y:(z:(w OR v) AND u)^2 AND t)~ ", "NOT  -  + a ", " ( ( a ) ) ", "a^ ^2", "TO TO TO", "[TO TO TO]", "a:TO",
+           # escapes inside field names, a byte order mark, backslash + line break inside a term (refused today: must stay consistent if ever accepted)
+           "first\\ name:x", "a\\:b:c", "outer:(in\\(ner\\):z)", "f\\*g:(h i)^2", "\ufeffab cd", "\ufeff f:x AND y", "x:(foo\\\nbar baz) OR c", "[a\\\nb TO c]",
+           "foo\\\nbar"]
 
 
 def work(item):
